@@ -83,7 +83,7 @@ fn check(c: &StoreCase, rec: &mut CaseRec) -> Verdict {
     let mut stored_any = false;
     // A stored program may have been reached through edits: for some lines an earlier,
     // different definition of the same number is typed first, and an extra DATA line is
-    // added and deleted again. The final stored program is the same.
+    // added and deleted again, and a READ is typed at the prompt in between. The final stored program is the same.
     let mut typed: Vec<String> = vec![];
     for (i, l) in c.lines.iter().enumerate() {
         let digits: String = l.trim_start().chars().take_while(|ch| ch.is_ascii_digit()).collect();
@@ -92,6 +92,10 @@ fn check(c: &StoreCase, rec: &mut CaseRec) -> Verdict {
             typed.push(format!("{} {}", digits, ["DATA \"stale\", 99", "REM stale", "PRINT \"old\" : DATA 1,2", "READ Q : DATA \"s\""][(h / 2 % 4) as usize]));
         }
         typed.push(l.clone());
+        if h % 3 == 1 {
+            // a READ typed at the prompt between edits (whatever it finds, or OUT OF DATA)
+            typed.push("READ Q9$".to_string());
+        }
         if !digits.is_empty() && digits.len() < 19 && h % 5 == 0 {
             if let Ok(n) = digits.parse::<u64>() {
                 if let Some(m) = n.checked_add(1) {
